@@ -61,6 +61,9 @@ Proof.
     rewrite H. cbn. congruence.
   - destruct (pc s); try done; injection Hs as <-; cbn in H1; congruence.
   - injection Hs as <-. cbn in H1. congruence.
+  - exfalso. destruct (is_other (cur s)); [|done]. destruct (pc s); repeat case_match; try done; injection Hs as <-; cbn in H1; congruence.
+  - exfalso. repeat case_match; try done; injection Hs as <-. destruct w; cbn in H1; congruence.
+  - exfalso. repeat case_match; try done; injection Hs as <-. cbn in H1. congruence.
 Qed.
 
 Theorem fin_dropped_only_by F s a s' :
@@ -81,6 +84,9 @@ Proof.
     rewrite H. cbn. congruence.
   - destruct (pc s); try done; injection Hs as <-; cbn in H1; congruence.
   - injection Hs as <-. cbn in H1. congruence.
+  - exfalso. destruct (is_other (cur s)); [|done]. destruct (pc s); repeat case_match; try done; injection Hs as <-; cbn in H1; congruence.
+  - exfalso. repeat case_match; try done; injection Hs as <-. destruct w; cbn in H1; congruence.
+  - exfalso. repeat case_match; try done; injection Hs as <-. cbn in H1. congruence.
 Qed.
 
 (* ---------- structural facts about reachable states ---------- *)
